@@ -32,11 +32,16 @@ def bounds(tier):
     return dict(BOUNDS[tier], priorities=PRIOS)
 
 
-def pdict(i, with_post=True, with_fin=True, nitems=1):
+def pdict(i, with_post=True, with_fin=True, nitems=1, tmpl=False):
     d = {"name": f"p{i}", "priority": PRIOS[i - 1], "vars": {"v": f"val{i}", f"w{i}": i},
          "transformations": [{"id": f"sfx{i}_{j}", "type": "field_name_suffix", "suffix": f"_{i}{'abc'[j]}"} for j in range(nitems)]}
     if i == 1:
         d["transformations"].append({"id": "ph1", "type": "value_placeholders"})
+        d["transformations"].insert(0, {"id": "st1", "type": "set_state", "key": "k", "val": "state1"})
+    if tmpl:  # post-processing that reads vars and state of the pipeline that owns it; no transformations at all
+        d["transformations"] = []
+        d["postprocessing"] = [{"id": f"post{i}", "type": "simple_template", "template": f"T{i} " + "{query} v={pipeline.vars[v]} k={pipeline.state[k]}" + f" T{i}"}]
+        with_post = False
     if with_post:
         d["postprocessing"] = [{"id": f"post{i}", "type": "embed", "prefix": f"[{i} ", "suffix": f" {i}]"}]
     if with_fin:
@@ -44,7 +49,7 @@ def pdict(i, with_post=True, with_fin=True, nitems=1):
     return d
 
 
-VARIANTS = {1: dict(nitems=2), 2: dict(with_post=False), 3: dict(with_fin=False), 4: dict(), 5: dict(nitems=2)}
+VARIANTS = {1: dict(nitems=2), 2: dict(with_post=False), 3: dict(with_fin=False), 4: dict(tmpl=True, with_fin=False), 5: dict(nitems=2)}
 
 
 def mk(i):
@@ -73,15 +78,57 @@ def observe_pipeline(p):
     return ("ok", out, sorted((k, v) for k, v in lp.vars.items() if not k.startswith("backend") and k != "output_format"), list(lp.applied), sorted(lp.applied_ids))
 
 
+def observe_direct(p):
+    """apply / postprocess_query / finalize called on the pipeline object itself"""
+    from sigma.rule import SigmaRule
+
+    rule = SigmaRule.from_dict(copy.deepcopy(RULE_D))
+    try:
+        p.apply(rule)
+        q = p.postprocess_query(rule, "Q")
+        out = p.finalize([q])
+    except Exception as e:
+        return ("err", type(e).__name__, str(e)[:150])
+    return ("ok", out, sorted(p.state.items()))
+
+
+def ref_direct(order):
+    order = [i for i in order if i != 0]
+    post, fins, vars_, state = [], [], {}, {}
+    for i in order:
+        d = pdict(i, **VARIANTS[i])
+        for t in d["transformations"]:
+            if t["type"] == "set_state":
+                state[t["key"]] = t["val"]
+        post += d.get("postprocessing", [])
+        fins += d.get("finalizers", [])
+        vars_.update(d["vars"])
+    q = "Q"
+    for p in post:
+        if p["type"] == "simple_template":
+            n = p["id"][4:]
+            if "k" not in state:
+                return ("err", "KeyError", "'k'")
+            q = f"T{n} {q} v={vars_['v']} k={state['k']} T{n}"
+        else:
+            q = p["prefix"] + q + p["suffix"]
+    out = [q]
+    for f in fins:
+        out = f["prefix"] + f["separator"].join(out) + f["suffix"]
+    return ("ok", out, sorted(state.items()))
+
+
 def ref_observe(order):
     """reference: list concatenation in the given order of pipeline indices (0 = empty)"""
     order = [i for i in order if i != 0]
-    sfx, post, fins, vars_, applied, ids = "", [], [], {}, [], []
+    sfx, post, fins, vars_, applied, ids, state = "", [], [], {}, [], [], {}
     for i in order:
         d = pdict(i, **VARIANTS[i])
         for t in d["transformations"]:
             if t["type"] == "field_name_suffix":
                 sfx += t["suffix"]
+            if t["type"] == "set_state":
+                state[t["key"]] = t["val"]
             applied.append(True)
             ids.append(t["id"])
         post += d.get("postprocessing", [])
@@ -94,7 +141,11 @@ def ref_observe(order):
     else:
         return None  # placeholder unresolved -> error; not used (p1 is always part of the compositions below)
     for p in post:
-        q = p["prefix"] + q + p["suffix"]
+        if p["type"] == "simple_template":
+            n = p["id"][4:]
+            q = f"T{n} {q} v={vars_['v']} k={state['k']} T{n}"
+        else:
+            q = p["prefix"] + q + p["suffix"]
     out = [q]
     for f in fins:
         out = f["prefix"] + f["separator"].join(out) + f["suffix"]
@@ -151,6 +202,8 @@ def pre_use(objs, ops):
                 pass
         elif op == "convert":
             observe_pipeline(objs[i])
+        elif op == "steal":
+            pass  # executed after the observed composition was built (see judge_plus)
         elif op == "selfadd":
             objs[i] + objs[i % len([k for k in objs if isinstance(k, int)]) + 1]
 
@@ -171,10 +224,20 @@ def judge_plus(res, st, n, expr, ops):
             comb = evaluate(_strip_none(expr), objs) + None
         else:
             comb = evaluate(expr, objs)
+        for op, j in ops:
+            if op == "steal" and j in objs:  # a later composition contains the same operand object
+                thief = mk(5 if n < 5 else 2) + objs[j]
+                thief.apply(__import__("sigma.rule", fromlist=["SigmaRule"]).SigmaRule.from_dict(copy.deepcopy(RULE_D)))
+        direct = observe_direct(comb)  # the composed pipeline used directly (no re-composition by a backend)
         got = observe_pipeline(comb)
     except Exception as e:
         got = ("err", type(e).__name__, str(e)[:200])
+        direct = None
     exp = ref_observe(order)
+    if direct is not None and exp is not None:
+        exp_direct = ref_direct(order)
+        if direct != exp_direct:
+            add_violation(res, "plus:direct-use-differs" + (":after-" + "+".join(o for o, _ in ops) if ops else ""), case, exp_direct, direct)
     if len([x for x in order]) >= 2:
         res["nontrivial"].add(h64(case))
     res["outcomes"].add(h64(str(got[1])[:80]))
@@ -304,7 +367,7 @@ def run_shard(shard, tier, seed):
                 judge_plus(res, st, n, e, ())
             res["samples"].append({"kind": "plus", "expr": show(exprs[-1])})
         else:
-            opsmenu = [(op, i) for op in ("apply", "convert", "selfadd") for i in range(1, n + 1)]
+            opsmenu = [(op, i) for op in ("apply", "convert", "selfadd", "steal") for i in range(1, n + 1)]
             for k in range(1, BOUNDS[tier]["pre_ops"] + 1):
                 for ops in itertools.product(opsmenu, repeat=k):
                     for e in exprs:
